@@ -211,6 +211,35 @@ def _rename_towards_reference(repo, ref):
     return renamed
 
 
+def expand_module_updates(tree):
+    """D.update({k1: v1, k2: v2}) as a statement at module level, D a module-level name, keys and values names / attribute chains
+    / constants: the stores D[k1] = v1; D[k2] = v2 in that order (what update does with a dictionary display).  In memory only."""
+    n = 0
+    top = {t.id for st in tree.body if isinstance(st, ast.Assign) for t in st.targets if isinstance(t, ast.Name)}
+
+    def plain(e):
+        return isinstance(e, (ast.Name, ast.Constant)) or _chain(e) is not None
+    i = 0
+    while i < len(tree.body):
+        st = tree.body[i]
+        i += 1
+        c = st.value if isinstance(st, ast.Expr) else None
+        if not (isinstance(c, ast.Call) and isinstance(c.func, ast.Attribute) and c.func.attr == "update" and isinstance(c.func.value, ast.Name) and c.func.value.id in top
+                and len(c.args) == 1 and not c.keywords and isinstance(c.args[0], ast.Dict) and c.args[0].keys and all(k is not None and plain(k) for k in c.args[0].keys)
+                and all(plain(v) for v in c.args[0].values)):
+            continue
+        new = []
+        for k, v in zip(c.args[0].keys, c.args[0].values):
+            a_ = ast.parse("%s[%s] = %s" % (c.func.value.id, ast.unparse(k), ast.unparse(v))).body[0]
+            for y in ast.walk(a_):
+                ast.copy_location(y, st)
+            new.append(a_)
+        tree.body[i - 1:i] = new
+        i += len(new) - 1
+        n += 1
+    return n
+
+
 def specialise_factories(tree):
     """NAME = factory(<constants>) at module level, where `factory` is a module-level function whose body is side-effect free
     bindings followed by one inner function (def or lambda) that it returns, becomes `def NAME(...)`: the inner function with the
